@@ -311,11 +311,55 @@ def _mk_same_named(modname: str, k: float):
 TwinA = onnx_function(_mk_same_named(__name__ + ".pkga", 1.0))     # two classes with the same __name__
 TwinB = onnx_function(_mk_same_named(__name__ + ".pkgb", -2.0))    # in different modules
 
-NAME_VARIANTS = ["type_override_default", "type_override_unique", "same_class_name", "type_override_three"]
+NAME_VARIANTS = ["history", "type_override_three", "type_override_default", "type_override_unique",
+                 "same_class_name"]
+
+
+# pool of decorated targets that share friendly names across targets, namespaces and modes; every member computes a
+# different affine map, so a body stored under somebody else's identifier changes the numbers
+def _mk_pool_fn(i: int, ns, typ, unique: bool):
+    k, c = np.float32((i % 5 + 1) * 0.5), np.float32(i - 3)
+
+    def f(x):
+        return x * k + c
+    f.__name__ = f.__qualname__ = f"pool_fn_{i}"
+    f.__module__ = __name__
+    globals()[f.__name__] = f
+    kw = {"unique": unique}
+    if ns is not None:
+        kw["namespace"] = ns
+    if typ is not None:
+        kw["type"] = typ
+    onnx_function(f, **kw)
+    base = typ if typ is not None else f.__name__
+    return {"attr": f.__name__, "ns": ns, "type": typ, "unique": unique, "base": base, "k": float(k), "c": float(c)}
+
+
+ALLOC_POOL = [_mk_pool_fn(i, ns, typ, u) for i, (ns, typ, u) in enumerate([
+    (None, "Block", False), (None, "Block", False), (None, "Block", True), (None, "Block", True),
+    ("a", "Block", False), ("a", "Block", True), ("a.Block", "Block", False), ("a.b", "Block", False),
+    ("a.b", "Block", True), (None, None, False), (None, None, True), ("a", "Other", False),
+    ("a", "Other", False), ("a.Block", "unique_", True), (None, "Blk-2", False), (None, "Blk.2", False),
+    ("a.Block.1", "Block", False), ("a.Block.unique", "Block", True),
+])]
+
+
+def pool_request(m: dict) -> dict:
+    """what `_allocate_friendly_name` is asked for, from the decorator arguments (not from the plugin object)"""
+    import re
+    parts = [re.sub(r"[^A-Za-z0-9_]", "_", q) for q in (m["ns"] or "custom").split(".") if q]
+    parts = [q for q in parts if q] or ["custom"]
+    return {"ns": parts, "base": re.sub(r"[^A-Za-z0-9_]", "_", m["base"]), "unique": bool(m["unique"])}
 
 
 def gen_names(rng, variant: Optional[str] = None) -> dict:
-    return {"pattern": "names", "variant": variant or rng.choice(NAME_VARIANTS), "swap": rng.chance(0.5)}
+    d = {"pattern": "names", "variant": variant or rng.choice(NAME_VARIANTS), "swap": rng.chance(0.5)}
+    if d["variant"] == "history":
+        # a call history over the pool: (member, which input) — the two inputs have different shapes, so one
+        # target can get two definitions; members share friendly names across targets / namespaces / modes
+        members = rng.sample(list(range(len(ALLOC_POOL))), 4)
+        d["calls"] = [[rng.choice(members), rng.choice([0, 1])] for _ in range(rng.choice([4, 5, 6]))]
+    return d
 
 
 # ----------------------------------------------------------------------------- several traced keywords / object-valued keywords
@@ -526,8 +570,70 @@ def gen_nested(rng) -> dict:
     return d
 
 
+_COVER_BASE = {"w": [0.5, 1.0, -2.0], "alpha": 0.5, "mode": "neg", "gain": 2.0, "shape": [2, 3], "dtype": "float32"}
+_COVER_OTHER = {"weight": {"w": [0.25, -1.0, 1.5]}, "static_alpha": {"alpha": 2.0}, "static_mode": {"mode": "dbl"},
+                "kwarg_gain": {"gain": 0.5}, "kwarg_gain_f32twin": {"gain": 2.0 + 2.0 ** -40},
+                "kwarg_presence": {"gain": 1.0}, "shape": {"shape": [4, 3]}, "dtype": {"dtype": "int32"},
+                "identity": {}, "same_instance": {}}
+_COVER_COMPONENT = {"weight": "weight", "static_alpha": "static", "static_mode": "static", "kwarg_gain": "kwarg_value",
+                    "kwarg_gain_f32twin": "kwarg_value", "kwarg_presence": "kwarg_presence", "shape": "shape",
+                    "dtype": "dtype", "identity": "identity", "same_instance": "none"}
+
+
+def _cover_pair(kind: str, diff: str) -> dict:
+    a = dict(_COVER_BASE)
+    if diff == "kwarg_presence":
+        a["gain"] = None
+    b = dict(a, **_COVER_OTHER[diff])
+    return {"pattern": "pair", "kind": kind, "diff": diff, "a": a, "b": b, "third": False, "swap": False,
+            "chain": False, "sym": False, "det_param": False, "traced_gain": False}
+
+
+def cover() -> list[dict]:
+    """FIXED programs (independent of the PRNG seed) with exactly two call sites that differ in exactly one
+    component: one per (component x {default class, unique class, function}).  Each entry: component, mode, desc.
+    They are part of every run (the generator's guaranteed part) and the source of Gen/C07.lean's response table."""
+    out = []
+    for kind, mode in (("NnxD", "default"), ("EqxU", "unique"), ("FnD", "default"), ("FnU", "unique")):
+        for diff in ("weight", "static_alpha", "static_mode", "kwarg_gain", "kwarg_gain_f32twin", "kwarg_presence",
+                     "shape", "dtype", "identity", "same_instance"):
+            if kind in FN_KINDS and diff in ("weight", "static_alpha", "static_mode", "identity"):
+                continue
+            if kind == "FnU" and diff not in ("dtype", "shape", "kwarg_gain"):
+                continue
+            if diff in ("identity", "same_instance") and kind not in ("NnxD", "EqxU"):
+                continue
+            out.append({"component": _COVER_COMPONENT[diff], "mode": mode, "desc": _cover_pair(kind, diff)})
+    for kind, mode in (("GridFnD", "default"), ("GridU", "unique")):
+        out.append({"component": "symbol", "mode": mode,
+                    "desc": {"pattern": "symbols", "kind": kind, "variant": "cross_then_self", "k": 2.0,
+                             "bindings": [[3, 5], [5, 2], [2, 2]]}})
+    for v in ("nested_static", "nested_nested_static"):
+        out.append({"component": "nested_static", "mode": "unique",
+                    "desc": {"pattern": "deep", "variant": v, "w": [0.5, 1.0, -2.0], "slopes": [0.5, 2.0],
+                             "three_levels": True}})
+    for v, mode in (("type_override_default", "default"), ("type_override_unique", "unique"),
+                    ("same_class_name", "default")):
+        out.append({"component": "target", "mode": mode, "desc": {"pattern": "names", "variant": v, "swap": False}})
+    for kind, mode in (("affine_d", "default"), ("affine_u", "unique"), ("AffineD", "default")):
+        out.append({"component": "kwarg_order", "mode": mode,
+                    "desc": {"pattern": "kworder", "kind": kind, "variant": "swapped"}})
+    for kind, acts in (("gated_d", ["neg", "dbl"]), ("GatedD", ["obj2", "obj3"])):
+        out.append({"component": "kwarg_object", "mode": "default",
+                    "desc": {"pattern": "objkw", "kind": kind, "acts": acts, "third": False}})
+    return out
+
+
 def generate(rng, n: int) -> list[dict]:
-    """Every (kind, diff) combination first (pattern-directed), then random fill."""
+    """The fixed cover set first (one program per component x mode), then every (kind, diff) combination in
+    shuffled order (pattern-directed) with random options."""
+    out: list[dict] = [c["desc"] for c in cover()]
+    n = max(n - len(out), 10)
+    out += _generate_random(rng, n)
+    return out
+
+
+def _generate_random(rng, n: int) -> list[dict]:
     out: list[dict] = []
     combos = [(k, d) for k in list(KINDS) + list(FN_KINDS) for d in DIFFS
               if not (k in FN_KINDS and d in ("identity", "weight", "static_alpha", "static_mode"))]
@@ -729,6 +835,12 @@ def _build_names(p: Prog) -> None:
     import sys
     mod = sys.modules[MY_MODULE]
     v = d["variant"]
+    if v == "history":
+        p.specs = [(2, 3), (1, 3)]
+        p.feeds = [_feed([2, 3], "float32", 7), _feed([1, 3], "float32", 2)]
+        calls_h = [(ALLOC_POOL[i]["attr"], j) for i, j in d["calls"]]
+        p.fn = lambda x, y: tuple(getattr(mod, a)((x, y)[j]) for a, j in calls_h)
+        return
     if v == "same_class_name":
         ta, tb = TwinA(2.0), TwinB(2.0)
         p.keep += [ta, tb]
